@@ -170,7 +170,11 @@ Definition kf_hello_reply_lost (evs : list fqev) : bool :=
    fails, the stream is re-established, the same event is sent again - for ever. *)
 Definition fqev_unmarshallable (ev : fqev) : bool :=
   match ev with
-  | QSub _ g f => negb (marshal_ok (ESub g f))
+  | QSub _ g f =>
+      (* the Subscribe event, the Unsubscribe event of the full topic name, and the
+         Subscribe event a resynchronisation derives from the full topic name *)
+      negb (marshal_ok (ESub g f)) || negb (utf8_valid (fed_full_topic g f)) ||
+      negb (marshal_ok (ESub (fst (split_topic (fed_full_topic g f))) (snd (split_topic (fed_full_topic g f)))))
   | QUnsub _ t => negb (marshal_ok (EUnsub t))
   | QMsg m => negb (marshal_ok (EMsg m))
   | _ => false
